@@ -773,6 +773,32 @@ def run_replay(ctx, chk, res):
     return res
 
 
+def power_order_cases(ctx, res, chk):
+    """model validation only (outside C01's grammar: string and error literals): POWER's two XlNumber
+    parameters are validated IN ORDER (error argument -> returned; failing cast -> #VALUE!; then the next
+    parameter), so a text base wins over an error exponent; the other operators return the first error."""
+    env = ENVS[0]
+    ops = ['^', '*', '/', '+', '-', '&', '=', '<>', '<', '>', '<=', '>=']
+    errs = ['#NUM!', '#N/A', '#DIV/0!', '(1/0)']
+    texts = ['"AB"', '"1x"', '("A"&"B")', '"12"', '(1&2)']
+    forms = []
+    for o in ops:
+        for e in errs:
+            for t in texts:
+                forms += ['=%s%s%s' % (t, o, e), '=%s%s%s' % (e, o, t)]
+            forms += ['=%s%s%s' % (e, o, e2) for e2 in errs if e2 != e][:2]
+            forms += ['=A1%s%s' % (o, e), '=%s%sA1' % (e, o)]
+    forms += ['="AB"^#NUM!', '=#NUM!^"AB"', '="AB"^"CD"', '=TRUE^#N/A', '=#N/A^TRUE', '=-"AB"', '=-#N/A', '=-(1/0)']
+    resp = ctx.driver.batch(['C01\tevaltext\t%s\t%s' % (cps(t), env_wire(env)) for t in forms])
+    for t, r in zip(forms, resp):
+        impl = parse_kv(r).get('impl', '?')
+        real = real_eval_one(env, t)
+        res.evaluations += 1
+        res.count('stream:power-order(model validation)')
+        if not same_outcome(impl, real):
+            chk.drift({'kind': 'value', 'stream': 'power-order', 'formula': t, 'impl_model': impl, 'real': real})
+
+
 def d3_witness(ctx, res, chk):
     """known finding D3: `)%` and `ref%` are folded into `* 0.01` (outside the generated grammar)"""
     env = ENVS[0]
@@ -950,6 +976,7 @@ def run(ctx):
 
     # 6. known finding D3
     d3_witness(ctx, res, chk)
+    power_order_cases(ctx, res, chk)
     chk.finish()
 
     res.rule = (
